@@ -139,9 +139,9 @@ register_Vec3Array()
 
     class_<FixedArray<IMATH_NAMESPACE::Vec3<T> > > vec3Array_class = FixedArray<IMATH_NAMESPACE::Vec3<T> >::register_("Fixed length array of IMATH_NAMESPACE::Vec3");
     vec3Array_class
-        .add_property("x",&Vec3Array_get<T,0>)
-        .add_property("y",&Vec3Array_get<T,1>)
-        .add_property("z",&Vec3Array_get<T,2>)
+        .add_property("x",boost::python::make_function(&Vec3Array_get<T,0>,boost::python::with_custodian_and_ward_postcall<0,1>()))
+        .add_property("y",boost::python::make_function(&Vec3Array_get<T,1>,boost::python::with_custodian_and_ward_postcall<0,1>()))
+        .add_property("z",boost::python::make_function(&Vec3Array_get<T,2>,boost::python::with_custodian_and_ward_postcall<0,1>()))
         .def("__setitem__", &setItemTuple<T>)
         .def("min", &Vec3Array_min<T>)
         .def("max", &Vec3Array_max<T>)
